@@ -49,6 +49,12 @@ func fval(s string) e2eVal {
 func sval(s string) e2eVal {
 	return e2eVal{"'" + strings.ReplaceAll(s, "'", "''") + "'", atrun.Arg{T: "str", V: s}, s}
 }
+// a character value of a column the image builder scans into sql.RawBytes (MEDIUMTEXT, LONGTEXT)
+func rval(s string) e2eVal {
+	v := sval(s)
+	v.gov = []byte(s)
+	return v
+}
 func bval(b []byte, pad int) e2eVal {
 	h := hex.EncodeToString(b)
 	stored := append([]byte{}, b...)
@@ -98,8 +104,8 @@ var e2eTypes = []e2eType{
 	{"VARCHAR(64)", "varchar", "", []e2eVal{sval("dGVzdA=="), sval("你好，世界"), sval("1234"), sval(`{"a":1}`), sval("it's"), sval("test"), sval("AAAA"), sval("12.5"), sval("null")}},
 	{"TINYTEXT", "tinytext", "", []e2eVal{sval("tiny"), sval("abcd")}},
 	{"TEXT", "text", "", []e2eVal{sval("some text with <html>&amp;"), sval(strings.Repeat("blank ", 400)), sval("")}},
-	{"MEDIUMTEXT", "mediumtext", "", []e2eVal{sval("medium"), sval("YQ==")}},
-	{"LONGTEXT", "longtext", "", []e2eVal{sval("long text"), sval("====")}},
+	{"MEDIUMTEXT", "mediumtext", "", []e2eVal{rval("medium"), rval("YQ=="), rval("")}},
+	{"LONGTEXT", "longtext", "", []e2eVal{rval("long text"), rval("====")}},
 	{"JSON", "json", "", []e2eVal{sval(`{"a": 1}`), sval(`[1, 2]`)}},
 	{"BINARY(4)", "binary", featValidation, []e2eVal{bval([]byte{0, 0xff}, 4), bval([]byte("test"), 4)}},
 	{"VARBINARY(300)", "varbinary", featValidation, []e2eVal{bval([]byte{0, 1, 0xfe, 0xff}, 0), bval(allBytes, 0), bval([]byte("test"), 0), bval([]byte{}, 0)}},
